@@ -581,7 +581,7 @@ int main(int argc, char **argv) {
   for (std::string prof : {"general", "rowhigh", "obstruction", "polarity", "dense"})
     add("c11.relegalize." + prof, [prof](uint64_t, Rng &rng, CaseResult &r) { flowCase(rng, r, prof, O_C11); });
   add("c11.constructed", [](uint64_t, Rng &rng, CaseResult &r) { c11Constructed(rng, r); });
-  for (std::string prof : {"general", "degenerate", "big", "wide", "dense", "multirow", "obstruction"})
+  for (std::string prof : {"general", "degenerate", "big", "wide", "dense", "multirow", "obstruction", "floating"})
     add("c07." + prof, [prof](uint64_t, Rng &rng, CaseResult &r) { c07Case(rng, r, prof, false); }, 60);
   add("c07.paramfuzz", [](uint64_t, Rng &rng, CaseResult &r) { c07Case(rng, r, "general", true); }, 60);
   add("c10.enum", [](uint64_t, Rng &rng, CaseResult &r) { c10Case(rng, r); }, 60);
